@@ -11,7 +11,7 @@ They only override public hooks, the way ``SimplifiedMeteredOnRamp`` itself is b
 Import only after ``vf.env.setup()`` (so that ``sym_metanet`` is the tree under observation).
 Module-level classes: instances can be copied and pickled.
 """
-from functools import cached_property
+from functools import cached_property, lru_cache
 
 import sym_metanet as M
 from sym_metanet.engines.core import get_current_engine
@@ -160,6 +160,20 @@ class Motorway(M.Network):
     @invalidate_cache(ramps)
     def add_origin(self, origin, node):
         return super().add_origin(origin, node)
+
+    # ... and a memoised lookup METHOD (functools.lru_cache: the decorator documents both kinds), dropped together with the
+    # cached property by one decorator on the overridden link calls
+    @lru_cache(maxsize=256)
+    def downstream(self, node):
+        return frozenset(id(w_) for w_ in self.G.successors(node)) if node in self.G else frozenset()
+
+    @invalidate_cache(ramps, downstream)
+    def add_link(self, node_up, link, node_down):
+        return super().add_link(node_up, link, node_down)
+
+    @invalidate_cache(ramps, downstream)
+    def add_links(self, links):
+        return super().add_links(links)
 
 
 class TollPlaza(M.MainstreamOrigin):
@@ -327,15 +341,64 @@ class CountingOrigin(M.Origin):
 
 
 class OffRampNode(M.Node):
-    """A user-defined NODE kind with its own node rule (the public hook `get_upstream_speed_and_flow`): an unmodelled exit
-    at the node takes the share `beta_off` of the flow every leaving link would receive."""
+    """A user-defined NODE kind with its own node rules (the public hooks `get_upstream_speed_and_flow` and
+    `get_downstream_density`): an unmodelled exit at the node takes the share `beta_off` of the flow every leaving link would
+    receive; a detector further ahead (reading `rho_block`) is averaged into the density the entering links are told lies ahead."""
 
     _vf_user = True
 
-    def __init__(self, name=None, beta_off=0.2):
+    def __init__(self, name=None, beta_off=0.2, rho_block=None):
         super().__init__(name)
         self.beta_off = beta_off
+        self.rho_block = rho_block
 
     def get_upstream_speed_and_flow(self, net, link, engine=None, **kwargs):
         v, q = super().get_upstream_speed_and_flow(net, link, engine=engine, **kwargs)
         return v, (1.0 - self.beta_off) * q
+
+    def get_downstream_density(self, net, engine=None, **kwargs):
+        if engine is None:
+            engine = get_current_engine()
+        r = super().get_downstream_density(net, engine=engine, **kwargs)
+        return r if self.rho_block is None else 0.5 * (r + self.rho_block)
+
+
+class NamedRamp(M.MeteredOnRamp):
+    """An element kind with VALUE equality: "elements are identified by their name" (what-if studies attach a fresh ramp object
+    of the same name per candidate capacity)."""
+
+    _vf_user = True
+
+    def __eq__(self, other):
+        return type(other) is type(self) and other.name == self.name
+
+    def __hash__(self):
+        return hash((type(self).__name__, self.name))
+
+
+class NamedDestination(M.Destination):
+    _vf_user = True
+
+    def __eq__(self, other):
+        return type(other) is type(self) and other.name == self.name
+
+    def __hash__(self):
+        return hash((type(self).__name__, self.name))
+
+
+class NominalLink(M.Link):
+    """A link kind that starts from its own nominal state where the caller gives none: it completes the mapping it is handed
+    (its own business) before the stock initialisation."""
+
+    _vf_user = True
+
+    def __init__(self, *args, nominal_rho=None, nominal_v=None, **kwargs):
+        super().__init__(*args, **kwargs)
+        self.nominal_rho = nominal_rho
+        self.nominal_v = nominal_v
+
+    def init_vars(self, init_conditions=None, engine=None, **kwargs):
+        ic = init_conditions if init_conditions is not None else {}
+        ic.setdefault("rho", self.nominal_rho)
+        ic.setdefault("v", self.nominal_v)
+        super().init_vars(ic, engine, **kwargs)
